@@ -144,7 +144,9 @@ def run(tier):
         r = explore(depth, maxcap, maxfail, "dfs") or r
     miri = None
     if tier == "thorough" and not rep.violations:
-        miri = _miri(["c12-dfs", "3", "2", "1"])
+        # (depth 3 under miri takes ~25 min on this box; depth 2 with two capacities and one failing growth covers every operation,
+        # every writer kind and both growth answers once, which is what miri is asked for: UB, not more histories)
+        miri = _miri(["c12-dfs", "2", "2", "1"])
         if miri["rc"] != 0:
             if "Undefined Behavior" in miri["stderr"] or "memory leaked" in miri["stderr"]:
                 rep.violation("C12|miri", {"stderr": miri["stderr"][-3000:]}, "miri reports UB/leak in DiplomatWrite histories")
